@@ -142,7 +142,18 @@ fn check_events(rep: &mut Report, evs: &[Ev], drops: &Arc<Vec<AtomicUsize>>, des
     }
 }
 
+/// Runs its closure when dropped (used to call into the code under test while the thread is unwinding).
+struct OnDrop<F: FnOnce()>(Option<F>);
+impl<F: FnOnce()> Drop for OnDrop<F> {
+    fn drop(&mut self) {
+        if let Some(f) = self.0.take() {
+            f()
+        }
+    }
+}
+
 fn run_cells(a: &Args) -> Report {
+    rt::quiet_panics();
     let mut rep = Report::new("C02", &a.leg, a.seed);
     let mut r = Rng::new(a.shard_seed());
     let miri = cfg!(miri);
@@ -203,6 +214,7 @@ fn run_cells(a: &Args) -> Report {
             let c = ctx.clone();
             let g = gstamp.clone();
             let use_ctx = !(miri || tsan);
+            let unwinding: Vec<bool> = (0..attempts).map(|_| r.chance(1, 5)).collect();
             let body = move || {
                 let mut out = Vec::new();
                 for k in 0..attempts {
@@ -210,7 +222,18 @@ fn run_cells(a: &Args) -> Report {
                     let rec = CanaryRec::new(id, &drops, &calls);
                     let _ = &g;
                     let call = if use_ctx { c.stamp() } else { 0 };
-                    let res = cell.set(rec);
+                    // some installs run from a destructor while their thread unwinds from an unrelated panic (a scope
+                    // guard / teardown path): the install itself completes normally and must count like any other
+                    let res = if unwinding[k] {
+                        let mut slot = None;
+                        let _ = std::panic::catch_unwind(std::panic::AssertUnwindSafe(|| {
+                            let _g = OnDrop(Some(|| slot = Some(cell.set(rec))));
+                            panic!("unrelated panic unwinding through an installer's scope");
+                        }));
+                        slot.expect("destructor ran")
+                    } else {
+                        cell.set(rec)
+                    };
                     let ret = if use_ctx { c.stamp() } else { 0 };
                     match res {
                         Ok(()) => out.push(Ev::Set { id, ok: true, call, ret, returned_intact: true }),
